@@ -21,7 +21,7 @@ func TestVerif(t *testing.T) {
 			"x body size {0,1,3} x the fake reading the whole body or only j bytes (j < size) before every non-success answer x MaxRetry {0,1,2} x token cache {none, pre-filled with two bearer tokens} " +
 			"x policy {default parameters 250ms/2/0.1 in [200ms,3s]; thorough adds 1ms/10/0.5 in [5ms,40ms]}. " +
 			"Each execution runs the call undisturbed and then once more per retry pause with the context cancelled at half of that pause (WithCancel+AfterFunc, and WithTimeout), replaying the same answers. " +
-			"Checked per call: body bytes received on every attempt = original (prefix when the fake stopped reading), attempts per send <= MaxRetry+1, every gap between attempts of a send within [MinWait,MaxWait] and = clamp(Retry-After) after 429 Retry-After:N, " +
+			"Checked per call: body bytes received on every attempt = original (prefix when the fake stopped reading), attempts per send <= MaxRetry+1, every gap between attempts of a send within [MinWait,MaxWait], = the pause the policy granted (recorded by a pass-through policy wrapper) and = clamp(Retry-After) after 429 Retry-After:N, " +
 			"zero virtual time anywhere else, no attempt after a non-retryable answer, returned response = last answer, cancellation => ctx error at the cancel instant and no later attempt; any panic is a violation. " +
 			"(b) plain sweep of GenericPolicy.Retry + ExponentialBackoff: attempt 0..70 x backoff {1ms,250ms} x factor {1,2,10} x jitter {0,0.1,0.5,1} x (MinWait,MaxWait) {(0,0),(200ms,3s),(3s,200ms)} x MaxRetry {0,3,71} x 18 answers (incl. seven Retry-After forms). " +
 			"non-trivial = (a) distinct (configuration, first three answers) of executions in which a request with a body reached the registry more than once, (b) distinct parameter tuples for which a pause was computed and judged",
@@ -64,11 +64,8 @@ func combos(th bool) []combo {
 func jobs(tier string) []driver.Job {
 	th := tier == "thorough"
 	var out []driver.Job
-	for _, b := range swBackoff {
-		for _, f := range swFactor {
-			out = append(out, sweepJob(b, f))
-		}
-	}
+	out = append(out, sweepJob())
+	out = append(out, exampleJob())
 	alphabet := quickAlphabet
 	npol := 1
 	if th {
@@ -101,17 +98,35 @@ func jobs(tier string) []driver.Job {
 	return out
 }
 
+// exampleJob runs the one written-out case of the design note (PUT "abc": 401
+// Bearer, 503, 503, success) so that it shows up among the evidence samples.
+func exampleJob() driver.Job {
+	name := "calls/example"
+	return driver.Job{Name: name, Run: func(c *driver.Ctx) {
+		cf := cfg{kind: kReader, size: 3, partial: -1, mr: 2}
+		c.Explore(driver.Scenario{
+			Name: name, Bounds: explore.Bounds{},
+			Make: func() (func(), func(*vs.Result) *driver.Fail) {
+				body, check, f := scenario(c, cf, fullAlphabet)
+				f.script = []beh{b401Bearer, b503, b503, bOK}
+				f.limit = len(f.script)
+				return body, check
+			},
+		})
+	}}
+}
+
 func callJob(cf cfg, alphabet []beh, sh, nsh int) driver.Job {
 	name := fmt.Sprintf("calls/%s/shard%d.%d", cf, sh, nsh)
 	return driver.Job{Name: name, Run: func(c *driver.Ctx) {
 		c.Explore(driver.Scenario{
 			Name: name, Bounds: explore.Bounds{}, Shard: sh, NShard: nsh,
-			Make: func() (func(), func(*vs.Result) *driver.Fail) { return scenario(c, cf, alphabet) },
+			Make: func() (func(), func(*vs.Result) *driver.Fail) { b, ch, _ := scenario(c, cf, alphabet); return b, ch },
 		})
 	}}
 }
 
-func scenario(c *driver.Ctx, cf cfg, alphabet []beh) (func(), func(*vs.Result) *driver.Fail) {
+func scenario(c *driver.Ctx, cf cfg, alphabet []beh) (func(), func(*vs.Result) *driver.Fail, *fake) {
 	var fail *driver.Fail
 	f := &fake{alphabet: alphabet, limit: cf.mr + 4, partial: cf.partial}
 	body := func() {
@@ -169,7 +184,7 @@ func scenario(c *driver.Ctx, cf cfg, alphabet []beh) (func(), func(*vs.Result) *
 		}
 		return fail
 	}
-	return body, check
+	return body, check, f
 }
 
 var _ = time.Second
